@@ -52,8 +52,8 @@ DidClose(f) == /\ s.alive /\ s.buf[f] # NoText
 (* an answered rename at a symbol mutates the cache in the coded reading.                                            *)
 Request(kind, f, pc) ==
   /\ s.alive
-  /\ LET d == IF s.has /\ f \in TreeOf(s.an) THEN DeathOf(kind, LT, PosOf[pc][1], PosOf[pc][2]) ELSE "" IN
-     IF d # "" /\ d \in Deviations THEN s' = Die(s, d)
+  /\ LET d == IF s.has /\ f \in TreeOf(s.an) THEN DeathOf(kind, LT, PosOf[pc][1], PosOf[pc][2], Deviations) ELSE "" IN
+     IF d # "" THEN s' = Die(s, d)
      ELSE IF kind = "rename" /\ pc = "valid" /\ s.has /\ f \in TreeOf(s.an) THEN s' = Renamed(s, Deviations)
      ELSE s' = s
   /\ hist' = IF kind = "rename" /\ pc = "valid" /\ f = "main" THEN Append(hist, Ev("rename", f, NoText)) ELSE hist
